@@ -114,6 +114,27 @@ def vdig(a):
     return h.hexdigest()[:12]
 
 
+def detach_exc(e):
+    """an exception that is kept (for its class and message) must not keep the frames it passed through: pydantic's
+    ValidationError is not traversed by the garbage collector, so exception -> traceback -> frame -> harness state -> exception
+    cycles are never freed and a worker grows by megabytes per hundred runs"""
+    seen = 0
+    while e is not None and seen < 10:
+        e.__traceback__ = None
+        if hasattr(e, "errors") and callable(e.errors):
+            # pydantic keeps the exceptions raised inside validators (with their tracebacks) in the line errors
+            try:
+                for err in e.errors():
+                    inner = (err.get("ctx") or {}).get("error")
+                    if isinstance(inner, BaseException) and inner is not e:
+                        detach_exc(inner)
+            except Exception:  # noqa
+                pass
+        nxt = e.__cause__ or e.__context__
+        e = nxt
+        seen += 1
+
+
 def exc_class(e):
     return type(e).__name__
 
